@@ -14,7 +14,7 @@ import (
 	"net/http/httptest"
 	"os"
 	"os/exec"
-	"reflect"
+	"runtime"
 	"sort"
 	"strings"
 	"sync"
@@ -88,20 +88,21 @@ func mws(rec *recorder, ms []Mw) []fox.MiddlewareFunc {
 	return out
 }
 
-var pcRecovery, pcLogger, pcUser uintptr
-
-func initPCs() {
-	pcRecovery = reflect.ValueOf(fox.Recovery()).Pointer()
-	pcLogger = reflect.ValueOf(fox.Logger()).Pointer()
-	pcUser = reflect.ValueOf(userMw(&recorder{}, 0)).Pointer()
-}
+// classOf identifies a registered middleware function by the name of its code
+// (closures of one function literal may be compiled several times when the
+// enclosing function is inlined, so code pointers are not comparable, names are).
 func classOf(pc uintptr) string {
-	switch pc {
-	case pcRecovery:
+	fn := runtime.FuncForPC(pc)
+	if fn == nil {
+		return "CUnknown"
+	}
+	name := fn.Name()
+	switch {
+	case strings.Contains(name, "CustomRecoveryWithLogHandler"):
 		return "CRecovery"
-	case pcLogger:
+	case strings.Contains(name, "LoggerWithHandler"):
 		return "CLogger"
-	case pcUser:
+	case strings.Contains(name, "userMw"):
 		return "CUser"
 	}
 	return "CUnknown" // does not type-check in Coq on purpose: reported as a case-evaluation problem
@@ -522,7 +523,6 @@ func main() {
 		raceChild(sp)
 		return
 	}
-	initPCs()
 	out := args["out"]
 	tier := args["tier"]
 	shards := hx.Atoi(args["shards"], 8)
